@@ -1607,3 +1607,47 @@ def rf136(run):
     if n < 2:
         raise F.AnalysisBroken('RF136: only %d writes of u.ref found' % n)
     return n
+
+
+# ---------------------------------------------------------------------------------------------
+# RF138: equal reference operands denote the same binding
+# ---------------------------------------------------------------------------------------------
+
+def rf138(run):
+    from lib import printexec as PE
+    rule = 'RF138'
+    run.rule(rule, 'MIR_op_eq_p, executed abstractly for two reference operands: two import (or export) items of the same name whose '
+                   'addresses differ — imports of two modules bound at different link steps, brought into one function by inlining — are '
+                   'not equal; the same item is equal to itself, and same name with the same address is equal.  GVN and the operand hash '
+                   'tables treat equal operands as one value')
+    tu = run.tu('mir')
+    f = tu.func('MIR_op_eq_p')
+    run.functions_analysed.add(('mir', f.name))
+    modes = dict(tu.enum('MIR_op_mode_t'))
+    kinds = dict(tu.enum_by_member('MIR_import_item')[1])
+    n = 0
+    for kind in ('MIR_import_item', 'MIR_export_item'):
+        for what, a1, a2, r2, want in (('same name, different addresses', 100, 200, 2, 0), ('same name, same address', 100, 100, 2, 1),
+                                       ('the same item', 100, 100, 1, 1)):
+            heap = {}
+            env = {'op1.mode': modes['MIR_OP_REF'], 'op2.mode': modes['MIR_OP_REF'], 'op1.u.ref': 1, 'op2.u.ref': r2,
+                   'op1.u.ref->item_type': kinds[kind], 'op2.u.ref->item_type': kinds[kind], 'op1.u.ref->addr': a1, 'op2.u.ref->addr': a2}
+            acc = {'MIR_item_name': lambda a, e, x: 'd', 'strcmp': lambda a, e, x: 0 if x.val(a[0], e) == x.val(a[1], e) else 1}
+            ex = PE.PrintExec(tu, heap, acc, {})
+            ex.retval = 'none'
+            try:
+                ex.run(f.body, env)
+            except F.AnalysisBroken as e_:
+                raise F.AnalysisBroken('MIR_op_eq_p not executable for reference operands: %s' % e_)
+            if not isinstance(ex.retval, int):
+                raise F.AnalysisBroken('MIR_op_eq_p: no result for reference operands (%s)' % what)
+            ok = bool(ex.retval) == bool(want)
+            n += 1
+            run.ob(rule, (kind, what), ok, {'items': kind, 'case': what, 'equal': bool(ex.retval), 'expected': bool(want)})
+            if not ok:
+                run.violation(rule, f, 'reference operands: %s' % what, 'MIR_op_eq_p says two %s references with %s are %s: %s' %
+                              (kind[4:-5], what, 'equal' if ex.retval else 'different',
+                               'GVN replaces the address of one definition by the address of the other when a function of another module is '
+                               'inlined next to a use of this module\'s import of the same name' if want == 0 else
+                               'identical references are no longer recognised as one value'), line=f.line)
+    return n
